@@ -189,9 +189,14 @@ def make_gmx_data(bars, seed):
 
 
 def frame_hash(df):
+    """column labels in order, dtype of every column, index and every cell with the Python type it holds (Decimal('1'), 1 and 1.0 differ; lists
+    nested in cells go in element by element): an added column, a converted cell and a changed dtype all change the hash"""
     h = hashlib.sha1()
-    h.update(",".join(map(str, df.columns)).encode())
-    h.update(df.to_csv().encode())          # lists nested in cells are written out element by element
+    h.update(repr([repr(c) for c in df.columns]).encode())
+    h.update(repr([str(t) for t in df.dtypes]).encode())
+    h.update((str(df.index.dtype) + repr(list(df.index.names)) + repr([repr(i) for i in df.index.tolist()])).encode())
+    for j in range(df.shape[1]):
+        h.update("|".join(type(v).__name__ + ":" + repr(v) for v in df.iloc[:, j].tolist()).encode())
     return h.hexdigest()
 
 
